@@ -174,7 +174,8 @@ class ConcatenatedOption(ConfigOption[Sequence[T]]):
         for instance in instances:
             if instance.is_applicable_to(module_path):
                 values += instance.value
-        values += cls.default_value
+        # The default value is the last of the instances (see
+        # Options._get_value_for_no_default).
         return values
 
 
